@@ -186,7 +186,7 @@ func c17Use(c *Ctx) {
 
 func mentionsNow(t *Term) bool {
 	return t.Mentions(func(s *Term) bool {
-		return s.Op == "call" && s.Name == "time.Now" || s.Op == "fn" && s.Name == "time.Now"
+		return s.Op == "call" && s.Name == "time.Now" || s.Op == "fn" && s.Name == "time.Now" || s.Op == "global" && strings.HasSuffix(s.Name, "jwt.TimeFunc")
 	})
 }
 
